@@ -6,6 +6,7 @@ package main
 // input line, one transcript (JSON) per output line.
 
 import (
+	"sync"
 	"context"
 	"encoding/hex"
 	"encoding/json"
@@ -82,6 +83,7 @@ type scnStep struct {
 	Cmd      scnCmd     `json:"cmd"`
 	Script   []string   `json:"script"`
 	CtxMs    int        `json:"ctx_ms"`
+	CancelMs int        `json:"cancel_ms"` // >0: the context has no deadline and is cancelled after this many ms
 	User     string     `json:"user"`
 	Password string     `json:"password"`
 	KG       string     `json:"kg"`
@@ -96,6 +98,8 @@ type scnStep struct {
 type scenario struct {
 	BMC       scnBMC    `json:"bmc"`
 	TimeoutMs int       `json:"timeout_ms"`
+	BackoffMs int       `json:"backoff_ms"` // >0: constant back-off of this many ms instead of none
+	UDP       bool      `json:"udp"`        // run over the library's real UDP transport (loopback bridge)
 	Steps     []scnStep `json:"steps"`
 	Fresh     bool      `json:"fresh"` // new connection (and BMC) for every step
 }
@@ -159,8 +163,47 @@ type simTransport struct {
 	closed  bool
 	closeErr error
 	logFrom int
+	prevStep []byte            // the last genuine reply of the previous step
 	cancel  context.CancelFunc // ends the step when it transmits without bound
 	runaway bool
+	udp     bool       // driven by the UDP bridge: never blocks, a missing reply is simply not sent
+	mu      sync.Mutex // UDP mode: the bridge goroutine and the step runner
+}
+
+// udpBridge puts the scripted fault injector and the simulated BMC behind a real UDP socket on loopback, so that
+// the library's own transport (sockets, deadlines, receive buffer) is part of the run.
+type udpBridge struct {
+	conn *net.UDPConn
+	t    *simTransport
+}
+
+func startBridge(t *simTransport) (*udpBridge, error) {
+	c, err := net.ListenUDP("udp4", &net.UDPAddr{IP: net.IPv4(127, 0, 0, 1)})
+	if err != nil {
+		return nil, err
+	}
+	br := &udpBridge{conn: c, t: t}
+	t.udp = true
+	go func() {
+		buf := make([]byte, 4096)
+		for {
+			n, addr, err := c.ReadFromUDP(buf)
+			if err != nil {
+				return
+			}
+			t.mu.Lock()
+			reply, e := t.Send(context.Background(), buf[:n])
+			var out []byte
+			if e == nil {
+				out = append([]byte{}, reply...)
+			}
+			t.mu.Unlock()
+			if e == nil {
+				c.WriteToUDP(out, addr)
+			}
+		}
+	}()
+	return br, nil
 }
 
 // maxTransmissions bounds one step: a correct library never needs more in these scenarios; a retry loop
@@ -173,7 +216,7 @@ func (t *simTransport) Close() error      { t.closed = true; return t.closeErr }
 var errLost = errors.New("i/o timeout (simulated lost reply)")
 
 func (t *simTransport) Send(ctx context.Context, d []byte) ([]byte, error) {
-	if err := ctx.Err(); err != nil {
+	if err := ctx.Err(); err != nil && !t.udp {
 		return nil, err
 	}
 	if t.n >= maxTransmissions {
@@ -233,6 +276,14 @@ func (t *simTransport) Send(ctx context.Context, d []byte) ([]byte, error) {
 	switch name {
 	case "lost":
 		reply = nil
+	case "silence":
+		// nothing arrives: the read blocks until the attempt's own deadline, as on a real socket
+		t.deliv = append(t.deliv, "")
+		if t.udp {
+			return nil, errLost
+		}
+		<-ctx.Done()
+		return nil, ctx.Err()
 	case "garbage":
 		n := 1 + t.rng.Intn(60)
 		reply = make([]byte, n)
@@ -291,6 +342,11 @@ func (t *simTransport) Send(ctx context.Context, d []byte) ([]byte, error) {
 		if t.prev != nil {
 			reply = t.prev
 		}
+	case "dupstep":
+		// a stale duplicate of the last reply of the PREVIOUS command arrives instead of this one
+		if t.prevStep != nil {
+			reply = t.prevStep
+		}
 	case "delay":
 		// replies arrive one exchange late: deliver the queued one, queue this one
 		t.queue = append(t.queue, genuine)
@@ -307,7 +363,7 @@ func (t *simTransport) Send(ctx context.Context, d []byte) ([]byte, error) {
 			t.queue = append(t.queue[1:], genuine)
 		}
 	}
-	if genuine != nil && name != "dupprev" {
+	if genuine != nil && name != "dupprev" && name != "dupstep" {
 		t.prev = genuine
 	}
 	if reply == nil {
@@ -617,10 +673,18 @@ func (zeroBackOff) Reset()                     {}
 var dialed []*bmc.V2SessionlessTransport
 
 type scnState struct {
-	b    *sim.BMC
-	t    *simTransport
-	conn *bmc.V2SessionlessTransport
-	sess *bmc.V2Session
+	b      *sim.BMC
+	t      *simTransport
+	conn   *bmc.V2SessionlessTransport
+	sess   *bmc.V2Session
+	bridge *udpBridge
+}
+
+func (st *scnState) close() {
+	if st.bridge != nil {
+		st.conn.Close()
+		st.bridge.conn.Close()
+	}
 }
 
 func newState(sc *scenario) *scnState {
@@ -631,6 +695,20 @@ func newState(sc *scenario) *scnState {
 		to = 200 * time.Millisecond
 	}
 	var bo backoff.BackOff = zeroBackOff{}
+	if sc.BackoffMs > 0 {
+		bo = backoff.NewConstantBackOff(time.Duration(sc.BackoffMs) * time.Millisecond)
+	}
+	if sc.UDP {
+		br, err := startBridge(t)
+		if err != nil {
+			panic("udp bridge: " + err.Error())
+		}
+		conn, err := bmc.DialV2ForVerif(br.conn.LocalAddr().String(), to, bo)
+		if err != nil {
+			panic("dial bridge: " + err.Error())
+		}
+		return &scnState{b: b, t: t, conn: conn, bridge: br}
+	}
 	conn := bmc.NewV2SessionlessTransportForVerif(t, to, bo)
 	return &scnState{b: b, t: t, conn: conn}
 }
@@ -654,9 +732,12 @@ func runStep(st *scnState, step *scnStep) stepResult { return runStepM(st, step,
 func runStepM(st *scnState, step *scnStep, withMetrics bool) (res stepResult) {
 	res.Op = step.Op
 	t := st.t
+	t.mu.Lock()
 	t.script, t.events, t.n = step.Script, step.Events, 0
+	t.prevStep = t.prev
 	t.sent, t.deliv, t.actions = nil, nil, nil
 	logFrom := len(st.b.Log)
+	t.mu.Unlock()
 	var before map[string]float64
 	if withMetrics {
 		before = gatherMetrics()
@@ -666,6 +747,13 @@ func runStepM(st *scnState, step *scnStep, withMetrics bool) (res stepResult) {
 		ctxMs = 5000
 	}
 	ctx, cancel := context.WithTimeout(context.Background(), time.Duration(ctxMs)*time.Millisecond)
+	if step.CancelMs > 0 {
+		// a context without deadline, cancelled from outside (the caller gives up)
+		cancel()
+		ctx, cancel = context.WithCancel(context.Background())
+		tm := time.AfterFunc(time.Duration(step.CancelMs)*time.Millisecond, cancel)
+		defer tm.Stop()
+	}
 	defer cancel()
 	t.cancel, t.runaway = cancel, false
 	start := time.Now()
@@ -866,6 +954,8 @@ func runStepM(st *scnState, step *scnStep, withMetrics bool) (res stepResult) {
 	if withMetrics {
 		res.Metrics = metricsDelta(before, gatherMetrics())
 	}
+	t.mu.Lock()
+	defer t.mu.Unlock()
 	res.Sent, res.Delivered, res.Actions = t.sent, t.deliv, t.actions
 	res.Runaway = t.runaway
 	for _, e := range st.b.Log[logFrom:] {
@@ -890,10 +980,12 @@ func runScenario(js string) string {
 	}
 	for i := range sc.Steps {
 		if sc.Fresh && i > 0 {
+			st.close()
 			st = newState(&sc)
 		}
 		out.Steps = append(out.Steps, runStep(st, &sc.Steps[i]))
 	}
+	defer st.close()
 	for _, s := range st.b.Sessions() {
 		out.Sessions = append(out.Sessions, map[string]any{
 			"consoleid": s.ConsoleID, "bmcid": s.BMCID, "auth": s.Auth, "integ": s.Integ, "conf": s.Conf,
